@@ -96,3 +96,13 @@ def in_map(address):
 
 def cell_at(address):
     return CURRENT.compiler.cell_map[address]
+
+
+# vocabulary of the trim_graph closures (sets of addresses held in closure variables, the formula field): the
+# symbolic twins live in pyvc.heapmodel; natively these contracts are exercised through the bounded stand-in only
+
+def _no_native(*a, **k):
+    raise NotImplementedError('no native meaning: checked deductively only')
+
+
+in_set = old_in_set = has_formula = old_has_formula = same_formula = is_range = _no_native
